@@ -60,6 +60,16 @@ pub enum Op {
     /// several puts, one seqno each (layout builder)
     MultiPut { ks: Vec<u8> },
     MultiDel { ks: Vec<u8> },
+    /// put + rotate + flush (watermark 0): one table per write
+    PutF { k: u8, big: bool },
+    /// delete + rotate + flush (watermark 0)
+    DelF { k: u8 },
+    /// rotate + flush, then leveled compaction
+    FlushLeveled { w: Wm, p: u8 },
+    /// an ingestion that is written to and then dropped without finish()
+    IngestAbandon { items: Vec<(u8, IKind)> },
+    /// several ops as one step (a workload loop such as write; flush; compact)
+    Seq { ops: Vec<Op> },
     Rotate,
     /// rotate + flush
     Flush { w: Wm },
@@ -91,6 +101,9 @@ pub enum Class {
 
 impl Op {
     pub fn class(&self) -> Class {
+        if let Op::Seq { ops } = self {
+            return ops.first().map_or(Class::Maint, Op::class);
+        }
         match self {
             Op::Put { .. }
             | Op::Del { .. }
@@ -98,6 +111,9 @@ impl Op {
             | Op::Batch { .. }
             | Op::MultiPut { .. }
             | Op::MultiDel { .. }
+            | Op::PutF { .. }
+            | Op::DelF { .. }
+            | Op::IngestAbandon { .. }
             | Op::Ingest { .. } => Class::Data,
             Op::Snap | Op::Unsnap => Class::Snap,
             Op::DropRange { .. } | Op::Clear | Op::Fifo { .. } => Class::Special,
@@ -114,6 +130,11 @@ impl Op {
             Op::Batch { .. } => "Batch",
             Op::MultiPut { .. } => "MultiPut",
             Op::MultiDel { .. } => "MultiDel",
+            Op::PutF { .. } => "PutF",
+            Op::DelF { .. } => "DelF",
+            Op::FlushLeveled { .. } => "FlushLeveled",
+            Op::IngestAbandon { .. } => "IngestAbandon",
+            Op::Seq { .. } => "Seq",
             Op::Rotate => "Rotate",
             Op::Flush { .. } => "Flush",
             Op::FlushSealed { .. } => "FlushSealed",
@@ -147,6 +168,11 @@ impl Op {
             Op::Batch { puts, dels } => format!("B(p{puts:?},d{dels:?})"),
             Op::MultiPut { ks } => format!("MP{ks:?}"),
             Op::MultiDel { ks } => format!("MD{ks:?}"),
+            Op::PutF { k, big } => format!("PF{}({k})", if *big { "big" } else { "" }),
+            Op::DelF { k } => format!("DF({k})"),
+            Op::FlushLeveled { w: x, p } => format!("FL{p}({})", w(x)),
+            Op::IngestAbandon { items } => format!("IngAbandon{items:?}"),
+            Op::Seq { ops } => format!("[{}]", ops.iter().map(Op::short).collect::<Vec<_>>().join(";")),
             Op::Rotate => "R".into(),
             Op::Flush { w: x } => format!("Fa({})", w(x)),
             Op::FlushSealed { w: x } => format!("Fs({})", w(x)),
